@@ -28,9 +28,12 @@ TInit == /\ l = 1 /\ BInit(DefaultCfg)
 \* application properties as one canonical string (absent in traces recorded before they were logged)
 PropsOf(x) == IF "props" \in DOMAIN x THEN x.props ELSE ""
 
+\* the interval is 2^31 s or more (then logged minus 2^31); absent in traces recorded before it was logged
+BigOf(x) == IF "msgexpbig" \in DOMAIN x THEN x.msgexpbig ELSE FALSE
+
 Msg(x) == [topic |-> x.topic, lv |-> x.lv, sys |-> x.sys, qos |-> x.qos, retain |-> x.retain, empty |-> x.empty,
            tag |-> x.tag, pid |-> x.pid, dup |-> x.dup, alias |-> x.alias, notopic |-> x.notopic, size |-> x.size, fsize |-> x.fsize,
-           msgexp |-> x.msgexp, ms |-> x.ms, props |-> PropsOf(x)]
+           msgexp |-> x.msgexp, big |-> BigOf(x), ms |-> x.ms, props |-> PropsOf(x)]
 
 TNext ==
   \/ /\ Is("reset")
@@ -60,7 +63,7 @@ TNext ==
   \/ Is("pubrel")      /\ ClientPubrel(ev.k, ev.pid)
   \/ Is("deliver")     /\ Deliver(ev.k, [topic |-> ev.topic, tag |-> ev.tag, qos |-> ev.qos, retain |-> ev.retain,
                                          dup |-> ev.dup, pid |-> ev.pid, ids |-> ev.ids, size |-> ev.size, alias |-> ev.alias,
-                                         msgexp |-> ev.msgexp, ms |-> ev.ms, props |-> PropsOf(ev)])
+                                         msgexp |-> ev.msgexp, big |-> BigOf(ev), ms |-> ev.ms, props |-> PropsOf(ev)])
   \/ Is("cack")        /\ ClientAck(ev.k, ev.t, ev.pid, ev.code)
   \/ Is("relout")      /\ PubrelRecv(ev.k, ev.pid)
   \/ Is("pingreq")     /\ Pingreq(ev.k)
